@@ -135,14 +135,14 @@ class Run:
             self.broken.append(("audit", "source-scan", "; ".join(bad[:5])))
         return ok
 
-    def audit(self, theorems, requires):
+    def audit(self, theorems, requires, requires_for=None):
         """Pin each theorem's statement with `Check name : stmt.` and collect Print Assumptions."""
         t = time.time()
         d = os.path.join(BUILD, "audit")
         os.makedirs(d, exist_ok=True)
         allok = True
         for name, stmt in theorems:
-            src = "".join("%s\n" % r for r in requires)
+            src = "".join("%s\n" % r for r in (requires_for or {}).get(name, requires))
             src += "Check (%s : %s).\nPrint Assumptions %s.\n" % (name, stmt, name)
             fn = os.path.join(d, "Audit_%s_%s.v" % (self.prop, name))
             open(fn, "w").write(src)
@@ -390,7 +390,7 @@ def execute(mod, tier, seed, replay=None, repo="/repo"):
     coq_ok = run.coq_make(mod.COQ_TARGETS)
     run.source_scan(mod.COQ_TARGETS)
     if coq_ok:
-        run.audit(mod.THEOREMS, mod.REQUIRES)
+        run.audit(mod.THEOREMS, mod.REQUIRES, getattr(mod, "REQUIRES_FOR", None))
         if tier == "thorough" and getattr(mod, "COQCHK", None):
             run.coqchk(mod.COQCHK)
     else:
@@ -491,8 +491,12 @@ def execute(mod, tier, seed, replay=None, repo="/repo"):
                 seen.add(line)
                 extra.append(("s%d" % len(extra), line, stream))
         searched = len(extra)
-        xl = ["%s %s" % (i, l) for i, l, _ in extra]
-        ximpl = run.harness(xl)
+        ximpl = {}
+        for a in areas:
+            run.use_area(a)
+            xl = ["%s %s" % (i, l) for i, l, _ in extra if len(areas) == 1 or mod.area_of(l) == a]
+            ximpl.update(run.harness(xl))
+        run.use_area(areas[0])
         xin = [(l, ximpl.get(i, "missing")) for i, l, _ in extra]
         for (line, a), (ok, why) in zip(xin, mod.oracle(run, xin)):
             if not ok:
